@@ -216,7 +216,7 @@ def run(out, tier, model_ok=True):
   n = 150 if tier == 'quick' else 4000
   frames = corpus_frames()
   for i in range(n):
-    fr = en.gen_frame(rng, n_pre=(3 if i % 15 == 0 else None), spike=(i % 11 == 0))
+    fr = en.gen_frame(rng, n_pre=(3 if i % 15 == 0 else None), spike=(i % 11 == 0), flat_test=(i % 13 == 6))
     fr['use_cooldown'] = rng.random() < 0.7
     if i % 4 == 1 and frames and 'refit_after' not in frames[-1]:
       fr['refit_after'] = {k: v for k, v in frames[-1].items() if k != 'refit_after'}      # one analysis object, two experiments in a row
